@@ -21,7 +21,9 @@ Inductive obs :=
 | ODone (out : option Z)                       (* on_done hook (machine completed) *)
 | OCut (which : nat)                           (* a bound was hit: 0 drain, 1 settle, 2 raise chain *)
 | OErr (e : err)                               (* an error escaped the processing of one event *)
-| OCan (b : bool).                             (* answer of can(event), probed by the harness before a send *)
+| OCan (b : bool)
+| OEnter (s : nat)                             (* state added to the active configuration *)
+| OLeave (s : nat).                            (* state removed from the active configuration *)                             (* answer of can(event), probed by the harness before a send *)
 
 Record st := {
   s_cfg : config;
@@ -240,7 +242,7 @@ Definition with_parent (m : machine) (l : list nat) : list nat :=
 (* the loop body of _enter_states for one state; `rec` is the recursive call *)
 Definition enter_one (eng : engine) (pr : bool) (m : machine) (rec : list nat -> option event -> M)
            (expl_parents expl_ids : list nat) (ev : option event) (x : nat) : M :=
-  lift (fun s => with_cfg (cadd x (s_cfg s)) s) ;;
+  lift (fun s => logo (OEnter x) (with_cfg (cadd x (s_cfg s)) s)) ;;
   (fun s => exec_actions eng pr (n_entry (nd m x)) (entry_event eng m ev x) s) ;;
   (match eng with Async => sched m x | Sync => ret end) ;;
   (if is_final m x then lift (fire_on_done eng m x) else ret) ;;
@@ -293,11 +295,11 @@ Definition exit_states (eng : engine) (pr : bool) (m : machine) (l : list nat) (
   | Sync =>
       for_each cancel l ;;
       for_each (fun x => (fun s => exec_actions eng pr (n_exit (nd m x)) (exit_event eng m ev x) s) ;;
-                         lift (fun s => with_cfg (cdel x (s_cfg s)) s)) l
+                         lift (fun s => if mem x (s_cfg s) then logo (OLeave x) (with_cfg (cdel x (s_cfg s)) s) else s)) l
   | Async =>
       for_each (fun x => cancel x ;;
                          (fun s => exec_actions eng pr (n_exit (nd m x)) (exit_event eng m ev x) s) ;;
-                         lift (fun s => with_cfg (cdel x (s_cfg s)) s)) l
+                         lift (fun s => if mem x (s_cfg s) then logo (OLeave x) (with_cfg (cdel x (s_cfg s)) s) else s)) l
   end.
 
 (* ---------------- one transition ---------------- *)
